@@ -285,7 +285,7 @@ def run(ctx, res):
     res.rule = ("one generated 4-source set (two source directories, a ZWJ sequence) + 2 fixed sources sharing an outline across glyphs with different fill and opacity x formats {glyf_colr_1, picosvg, glyf} (+cbdt, glyf_colr_0, untouchedsvg in "
                 "thorough) x 9 variants: argv permutations, PYTHONHASHSEED in {0,1,2,3,4,5,7,12345,random}, ninja -j1/-j16, three working directories with relative "
                 "paths, absolute paths, build directory location; non-trivial = every variant other than the baseline")
-    formats = ["glyf_colr_1", "picosvg", "glyf", "picosvgz"] + (["cbdt", "glyf_colr_0", "untouchedsvg", "untouchedsvgz", "sbix", "cff_colr_1", "cff2_colr_0"] if ctx.thorough else [])
+    formats = ["glyf_colr_1", "picosvg", "glyf", "picosvgz", "untouchedsvg"] + (["cbdt", "glyf_colr_0", "untouchedsvgz", "sbix", "cff_colr_1", "cff2_colr_0"] if ctx.thorough else [])
     suite_ninja_dag(ctx, res, ctx.budget(8, 120))
     suite_vf(ctx, res)
     suite(ctx, res, formats)
